@@ -101,6 +101,18 @@ func (p *Parser) Parse(source string) (Node, error) {
 		return nil, fmt.Errorf("parsing error: %w", err)
 	}
 
+	// parseOuterTemplate hands back control at a tag that ends or continues an
+	// enclosing block (endif, else, endfor, ...). At the top level nothing is open:
+	// such a tag is misplaced, and what follows it must not be dropped silently
+	if p.tokenIndex < len(p.tokens) && p.tokens[p.tokenIndex].Type != TOKEN_EOF {
+		stray := p.tokens[p.tokenIndex]
+		name := stray.Value
+		if p.tokenIndex+1 < len(p.tokens) {
+			name = p.tokens[p.tokenIndex+1].Value
+		}
+		return nil, fmt.Errorf("parsing error: unexpected '%s' tag at line %d", name, stray.Line)
+	}
+
 	linkMacros(nodes)
 
 	return NewRootNode(nodes, 1), nil
